@@ -1,2 +1,105 @@
+(* C06 - XPath queries select what XPath 1.0 says they select.   Statements only.
+
+   eval       XPath/Eval.v    mirror of _delb/xpath/ast.py (tied to NodeBase.xpath by harness/props/c06.py, and to
+                              functions.py / Axis by Gen/GenXEval.v, regenerated from the source on every run)
+   ref_eval   XPath/Ref.v     XPath 1.0 semantics of the subset (tied to lxml's engine by the same check)
+   deviate    XPath/Ref.v     = xlate true: the three established deviations, and nothing else, applied to e
+   in_subset  XPath/Subset.v  decidable; excludes exactly the inputs on which one of the classes (a)-(l) occurs *)
 From Delb.Base Require Import PyStr.
-From Delb.XPath Require Import Ast Nav Eval Ref Subset Run.
+From Delb.Tree Require Import ATree ITree.
+From Delb.XPath Require Import Ast Nav Eval Ref Subset Run EvalRef C06Witness.
+
+(* Full statement of DESIGN.md:  forall t ctx e nsmap, in_subset e -> NoDup (eval ...) /\ (forall n, In n (eval ...) <->
+   In n (ref_eval (deviate e) ...)).  Proved as stated, with in_subset depending also on the tree and the context node
+   (the classes (c)(d)(e)(g)(h)(j) are properties of the candidates an expression meets); on in_subset the evaluator
+   does not fault, so "eval" is `Ok l`. *)
+Theorem C06 : forall (D : itree) (m : nsmap) (e : xpath_expr) (ctx : nd),
+  in_subset D m e ctx = true ->
+  exists re l r, deviate m e = Some re /\ eval D m e ctx = Ok l /\ ref_eval D m re ctx = Some r /\
+                 NoDup l /\ (forall n, In n l <-> In n r).
+Proof.
+  intros D m e ctx H. destruct (eval_is_ref D m e ctx H) as (re & l & H1 & H2 & H3 & H4).
+  exists re, l, l. repeat split; auto. eapply NoDup_map_inv. exact H4.
+Qed.
+Print Assumptions C06.
+
+(* stronger form used by C14/C15: the same list, no position twice *)
+Theorem C06_list : forall D m e ctx, in_subset D m e ctx = true ->
+  exists re l, deviate m e = Some re /\ eval D m e ctx = Ok l /\ ref_eval D m re ctx = Some l /\ NoDup (map fst l).
+Proof. exact eval_is_ref. Qed.
+Print Assumptions C06_list.
+
+(* each axis of the evaluator is the reference axis of the deviated expression, in proximity order *)
+Theorem C06_axes : forall D a a' n, x_axis true a = Some a' -> (is_doc n = false \/ downward a = true) ->
+  d_axis D a n = (r_axis D a' n, None).
+Proof. exact axis_agrees. Qed.
+Print Assumptions C06_axes.
+
+(* predicate expressions: same value up to the representation, for every candidate without a hazard *)
+Theorem C06_predicates : forall m e t c pos size, ty_of e = Some t -> hazard m e c = false -> bound m e = true ->
+  exists v rv, d_expr m e c pos size = Ok v /\ r_expr m e c pos size = Some rv /\ vrel t v rv.
+Proof. intros. eapply expr_agrees; eauto. Qed.
+Print Assumptions C06_predicates.
+
+(* de-duplication: no position twice in any result, inside in_subset or not *)
+Theorem C06_each_node_once : forall D m e ctx l, eval D m e ctx = Ok l -> NoDup (map fst l).
+Proof.
+  intros D m e ctx l. unfold eval. destruct (d_paths D m e ctx) as [o f].
+  destruct (existsb is_doc o); [discriminate|]. destruct f; [discriminate|]. intro H. inversion H. apply dedup_NoDup_fst.
+Qed.
+Print Assumptions C06_each_node_once.
+
+(* the generated table of Axis generator methods (read from ast.py on every run) lists exactly the eleven
+   generators d_axis mirrors *)
+Theorem C06_axis_table : map fst GenXEval.axis_generators =
+  [ [97;110;99;101;115;116;111;114]; [97;110;99;101;115;116;111;114;95;111;114;95;115;101;108;102];
+    [99;104;105;108;100]; [100;101;115;99;101;110;100;97;110;116];
+    [100;101;115;99;101;110;100;97;110;116;95;111;114;95;115;101;108;102];
+    [102;111;108;108;111;119;105;110;103]; [102;111;108;108;111;119;105;110;103;95;115;105;98;108;105;110;103];
+    [112;97;114;101;110;116]; [112;114;101;99;101;100;105;110;103];
+    [112;114;101;99;101;100;105;110;103;95;115;105;98;108;105;110;103]; [115;101;108;102] ]%N.
+Proof. exact axis_generators_are_modelled. Qed.
+
+(* ---- the hypotheses are satisfiable on a non-trivial input: three paths, predicates, both extended axes *)
+Example C06_example : in_subset (docnode ex_tree) ex_ns ex_expr ex_ctx = true /\
+  got ex_tree ex_ns ex_expr ex_ctx = Ok [[0;0;1]; [0;2]]%nat.
+Proof. vm_compute. split; reflexivity. Qed.
+
+(* ---- refutations: outside in_subset the full statement fails (findings.d/C06.json) *)
+Theorem C06_a_refuted : in_subset (docnode wa_tree) wa_ns wa_expr wa_ctx = false /\
+  got wa_tree wa_ns wa_expr wa_ctx = Ok [[0;0]; [0;1]]%nat /\ want wa_tree wa_ns wa_expr wa_ctx = Some [[0;1]]%nat.
+Proof. vm_compute. repeat split. Qed.
+Theorem C06_b_refuted : in_subset (docnode wb_tree) wb_ns wb_expr wb_ctx = false /\
+  got wb_tree wb_ns wb_expr wb_ctx = Ok [] /\ want wb_tree wb_ns wb_expr wb_ctx = Some [[0;1]]%nat.
+Proof. vm_compute. repeat split. Qed.
+Theorem C06_c_refuted : in_subset (docnode wc_tree) wc_ns wc_expr wc_ctx = false /\
+  got wc_tree wc_ns wc_expr wc_ctx = Ok [[0;0]]%nat /\ want wc_tree wc_ns wc_expr wc_ctx = Some [].
+Proof. vm_compute. repeat split. Qed.
+Theorem C06_d_refuted : in_subset (docnode wd_tree) wd_ns wd_expr wd_ctx = false /\
+  got wd_tree wd_ns wd_expr wd_ctx = Ok [[0;0]]%nat /\ want wd_tree wd_ns wd_expr wd_ctx = Some [].
+Proof. vm_compute. repeat split. Qed.
+Theorem C06_e_refuted : in_subset (docnode we_tree) we_ns we_expr we_ctx = false /\
+  got we_tree we_ns we_expr we_ctx = Ok [[0;0]]%nat /\ want we_tree we_ns we_expr we_ctx = Some [].
+Proof. vm_compute. repeat split. Qed.
+(* (f): XPath 1.0 compares numbers here; Ref.v does not model string -> number, the evaluator raises TypeError *)
+Theorem C06_f_refuted : in_subset (docnode wf_tree) wf_ns wf_expr wf_ctx = false /\
+  got wf_tree wf_ns wf_expr wf_ctx = Crash TypeError.
+Proof. vm_compute. repeat split. Qed.
+Theorem C06_g_refuted : in_subset (docnode wg_tree) wg_ns wg_expr wg_ctx = false /\
+  got wg_tree wg_ns wg_expr wg_ctx = Crash TypeError /\ want wg_tree wg_ns wg_expr wg_ctx = Some [[0;0]]%nat.
+Proof. vm_compute. repeat split. Qed.
+(* (h): `..` from the root selects the root (document) node in XPath 1.0; the evaluator raises AssertionError *)
+Theorem C06_h_refuted : in_subset (docnode wh_tree) wh_ns wh_expr wh_ctx = false /\
+  got wh_tree wh_ns wh_expr wh_ctx = Crash AssertionError /\ want wh_tree wh_ns wh_expr wh_ctx = Some [[]].
+Proof. vm_compute. repeat split. Qed.
+(* (i): text() is not an XPath 1.0 function (Ref.v: None); as a node test inside a predicate it would select nothing *)
+Theorem C06_i_refuted : in_subset (docnode wi_tree) wi_ns wi_expr wi_ctx = false /\
+  got wi_tree wi_ns wi_expr wi_ctx = Ok [[0;0]]%nat /\ want wi_tree wi_ns wi_expr wi_ctx = None.
+Proof. vm_compute. repeat split. Qed.
+Theorem C06_j_refuted : in_subset (docnode wj_tree) wj_ns wj_expr wj_ctx = false /\
+  got wj_tree wj_ns wj_expr wj_ctx = Ok [[0;0]]%nat /\ want wj_tree wj_ns wj_expr wj_ctx = Some [].
+Proof. vm_compute. repeat split. Qed.
+(* (k): XPath 1.0 converts the attribute to a number (Ref.v: None); the evaluator compares "1" with 1 *)
+Theorem C06_k_refuted : in_subset (docnode wk_tree) wk_ns wk_expr wk_ctx = false /\
+  got wk_tree wk_ns wk_expr wk_ctx = Ok [].
+Proof. vm_compute. repeat split. Qed.
